@@ -1,5 +1,6 @@
 import MaltModel.Proofs.FuncSim
 import MaltModel.Proofs.FuncCheck
+import MaltModel.Proofs.FuncWrapper
 /-!
 # C01 (semantic core) — functionalisation preserves semantics under the default operators
 
@@ -86,6 +87,111 @@ theorem execNB_det (X : Ext) {m k : Nat} {b : TBlock} {σ : TSt} {r r' : Out × 
   have a := execNB_mono X h (Nat.le_max_left m k)
   have b := execNB_mono X h' (Nat.le_max_right m k)
   rw [a] at b; exact Option.some.inj b
+
+/-! ## The function wrapper and the return-value protocol
+
+`Func/Wrapper.lean` models what `converters/functions.py` and the return pass generate around a converted body
+and what `FunctionScope` / `UndefinedReturnValue` do at run time:
+```
+def f(params):
+    with ag__.FunctionScope('f', 'fscope', <options>) as fscope:
+        [do_return = False; retval_ = ag__.UndefinedReturnValue()]      # only when the source has a `return`
+        <functionalised body>
+        [return fscope.ret(retval_, do_return)]
+```
+`callW` / `callConverted` run it: `__enter__` pushes the status context iff `user_requested`, the block runs under
+the native operators, `__exit__` pops on every outcome and — the model's assumption `exitSwallows = false`, tied
+to the real class by the harness obligation `correspondence:function-scope-protocol` — never swallows an
+exception; falling off the end is `None`; `fscope.ret` turns the `UndefinedReturnValue` placeholder into `None`.
+The source side is the lowered body (`Lowered.prog`: the output shape of the return pass, no `return` left inside,
+result in `retval_`) and the caller's view `fnOutcome` of its outcome (`normal ↦ return None`). -/
+
+/-- **The function wrapper is correct** (both shapes).  For every lowered body `l` — `plain q` (the source has no
+`return`) or `rets do_return retval_ … mid` (`do_return = False; retval_ = None; mid; return retval_`) — that is
+well formed (`wf`: no `return` inside, nothing inside reads `retval_`) and satisfies the hypotheses of
+`control_flow_correct`: calling the converted function (wrapper ∘ functionalised body, any name, any
+`user_requested`) in a state agreeing with the source state on the live-in variables yields **the same result**
+— including `None` when the source falls off the end or `retval_` still holds the placeholder, and the same
+exception when one propagates through the `with` — **the same effect log**, and restores the conversion-status
+stack. -/
+theorem function_wrapper_correct (X : Ext) (l : Lowered) (hwf : l.wf = true) (name : String) (userRequested : Bool)
+    (D : List Name) (hyp : FuncHyp D l.prog [])
+    (σ : St) (σ' : TSt) (hag : Agree (blockIn l.prog []) σ σ') (hb : BoundSub σ D) (stk : CtxStack)
+    (n : Nat) (o : Out) (σ₁ : St) (h : execB X n (eraseB l.prog) σ = some (o, σ₁)) :
+    ∃ m τ, callConverted X m l name userRequested σ' stk = some (fnOutcome o, τ, stk) ∧ τ.log = σ₁.log :=
+  wrapper_both X l hwf name userRequested D hyp σ σ' hag hb stk n o σ₁ h
+
+/-- Falling off the end of the source body: the converted function returns `None`. -/
+theorem function_wrapper_falls_off_end (X : Ext) (l : Lowered) (hwf : l.wf = true) (name : String) (ur : Bool)
+    (D : List Name) (hyp : FuncHyp D l.prog [])
+    (σ : St) (σ' : TSt) (hag : Agree (blockIn l.prog []) σ σ') (hb : BoundSub σ D) (stk : CtxStack)
+    (n : Nat) (σ₁ : St) (h : execB X n (eraseB l.prog) σ = some (.normal, σ₁)) :
+    ∃ m τ, callConverted X m l name ur σ' stk = some (.ret .none, τ, stk) ∧ τ.log = σ₁.log :=
+  wrapper_both X l hwf name ur D hyp σ σ' hag hb stk n .normal σ₁ h
+
+/-- An exception of the source body propagates through the `with ag__.FunctionScope(…)` unchanged, and the status
+stack is restored (`__exit__` ran). -/
+theorem function_wrapper_exception_propagates (X : Ext) (l : Lowered) (hwf : l.wf = true) (name : String) (ur : Bool)
+    (D : List Name) (hyp : FuncHyp D l.prog [])
+    (σ : St) (σ' : TSt) (hag : Agree (blockIn l.prog []) σ σ') (hb : BoundSub σ D) (stk : CtxStack)
+    (n : Nat) (e : Exc) (σ₁ : St) (h : execB X n (eraseB l.prog) σ = some (.exc e, σ₁)) :
+    ∃ m τ, callConverted X m l name ur σ' stk = some (.exc e, τ, stk) ∧ τ.log = σ₁.log :=
+  wrapper_both X l hwf name ur D hyp σ σ' hag hb stk n (.exc e) σ₁ h
+
+/-- The assumption about `FunctionScope.__exit__` is needed: a scope whose `__exit__` returned a true value would
+turn every exception into `return None`, which is not what the caller of the source function sees. -/
+theorem exit_must_not_swallow (e : Exc) : (if true then Out.ret .none else Out.exc e) ≠ fnOutcome (.exc e) := by
+  simp [fnOutcome]
+
+/-- **Whole converted function** (wrapper ∘ functionalised body), from a plain `Malt.Sem` lowered body `s`
+(`SrcLowered`: exactly the two output shapes of the jump-lowering model's `lowerReturn`) and a position-indexed
+annotation: called on the same arguments (the variables in `D` are the parameters), the source function
+(`callS`: the body's outcome as the caller sees it) and the converted function return the same result with the
+same effect log.  `annotL ann s` is `annotB ann 0 s.prog` with the shape kept (`annotL_of_annotB`). -/
+theorem converted_function_correct (X : Ext) (ann : Ann) (s : SrcLowered) (l : Lowered) (hl : annotL ann s = some l)
+    (hwf : l.wf = true) (name : String) (userRequested : Bool) (D : List Name) (hyp : FuncHyp D l.prog [])
+    (σ : St) (hb : BoundSub σ D) (stk : CtxStack)
+    (n : Nat) (r : Out) (σ₁ : St) (h : callS X n s.prog σ = some (r, σ₁)) :
+    ∃ m τ, callConverted X m l name userRequested (TSt.ofSt σ) stk = some (r, τ, stk) ∧ τ.log = σ₁.log := by
+  simp only [callS, Option.map_eq_some_iff, Prod.mk.injEq] at h
+  obtain ⟨⟨o, σ₁'⟩, hx, rfl, rfl⟩ := h
+  have he := annotL_erase ann s l hl
+  exact wrapper_both X l hwf name userRequested D hyp σ (TSt.ofSt σ) (agree_ofSt _ σ) hb stk n o σ₁'
+    (by rw [he]; exact hx)
+
+/-- The annotated lowered body of `converted_function_correct` exists, with its shape, whenever `annotB` accepts the
+lowered program (it accepts every program without `break`/`continue`: `annotB_total_of_noJump`). -/
+theorem annotL_of_annotB (ann : Ann) (s : SrcLowered) (q : ABlock) (hq : annotB ann 0 s.prog = some q) :
+    ∃ l, annotL ann s = some l ∧ l.prog = q :=
+  annotL_prog ann s q hq
+
+/-- **Nested converted functions**, as far as `Malt.Sem` can say it (`_partial`: `Malt.Sem` has no `def` statement
+and no closures — a call of a nested function is modelled as a call in a fresh frame `argState params args log`
+that binds the parameters only and continues the caller's effect log; capture of enclosing variables is outside the
+model).  A nested `def` is converted with `call_options()` (`user_requested = False`): its scope does not touch the
+status stack; it is entered while the enclosing function's scope is open (`outer.enter stk`).  The nested call
+returns what the source nested function returns, continues the log identically, and hands the enclosing scope's
+stack back unchanged — so the enclosing function's own `__exit__` restores `stk`. -/
+theorem nested_function_call_correct_partial (X : Ext) (outer : Wrapper) (l : Lowered) (hwf : l.wf = true)
+    (name : String) (params : List Name) (args : List Val) (log : List Event) (hyp : FuncHyp params l.prog [])
+    (stk : CtxStack)
+    (n : Nat) (o : Out) (σ₁ : St) (h : execB X n (eraseB l.prog) (argState params args log) = some (o, σ₁)) :
+    ∃ m τ, callConverted X m l name false (TSt.ofSt (argState params args log)) (outer.enter stk) =
+        some (fnOutcome o, τ, outer.enter stk) ∧ τ.log = σ₁.log ∧ outer.exit (outer.enter stk) = stk := by
+  have hb : BoundSub (argState params args log) params := by
+    intro y hy
+    simp only [argState, ne_eq, Option.map_eq_none_iff] at hy
+    cases hf : (params.zip args).find? (fun b => b.1 == y) with
+    | none => exact absurd hf hy
+    | some b =>
+      have hm := List.mem_of_find?_eq_some hf
+      have hp := List.find?_some hf
+      have : b.1 = y := by simpa using hp
+      rw [← this]
+      exact (List.of_mem_zip hm).1
+  obtain ⟨m, τ, hc, hlog⟩ := wrapper_both X l hwf name false params hyp _ (TSt.ofSt _) (agree_ofSt _ _) hb
+    (outer.enter stk) n o σ₁ h
+  exact ⟨m, τ, hc, hlog, Wrapper.exit_enter outer stk⟩
 
 /-! ## Examples: the hypotheses are satisfiable by non-trivial programs -/
 namespace Examples
@@ -221,6 +327,96 @@ example (n : Int) (k : Nat) (r : Out × St) (h : execB X0 k (eraseB loopProg) (s
       · have : y = "n" := by simpa using (beq_iff_eq.mp hyn).symm
         simp [this]
       · simp [hyn] at hy) k r h
+
+/-! ### wrapped functions -/
+
+/-- Shape (a), falling off the end: `def f(a): tr(a)` returns `None` after logging the call. -/
+def fallOff : Lowered := .plain [ .expr {liveIn := ["a"], liveOut := []} (.call "tr" [.var "a"]) ]
+
+example : fallOff.wf = true ∧ funcHyp ["a"] fallOff.prog [] = true := by decide
+example : (callConverted X0 5 fallOff "f" true (TSt.ofSt (st [("a", .int 4)])) []).map (fun r => (r.1, r.2.1.log, r.2.2)) =
+    some (.ret .none, [.call "tr" [.int 4]], []) := by decide
+
+/-- Shape (b), a conditional return: `def f(c): if c: return 7` — lowered
+```
+do_return = False; retval_ = None
+if c:
+    do_return = True; retval_ = 7
+return retval_
+```
+and converted (the block inside the `with` is `do_return = False; retval_ = UndefinedReturnValue(); if_stmt(…)`,
+followed by `return fscope.ret(retval_, do_return)`). -/
+def condRet : Lowered :=
+  .rets "do_return" "retval_"
+    {liveIn := ["c"], liveOut := ["c", "do_return"]}
+    {liveIn := ["c", "do_return"], liveOut := ["c", "do_return", "retval_"]}
+    {liveIn := ["do_return", "retval_"], liveOut := []}
+    [ .ifS {liveIn := ["c", "do_return", "retval_"], liveOut := ["do_return", "retval_"],
+            definedIn := ["c", "do_return", "retval_"], declared := ["do_return", "retval_"], undefined := [], nouts := 2}
+        (.var "c")
+        [ .assign {liveIn := [], liveOut := ["do_return"]} "do_return" (.const (.int 1)),
+          .assign {liveIn := ["do_return"], liveOut := ["do_return", "retval_"]} "retval_" (.const (.int 7)) ]
+        [ .pass {liveIn := ["do_return", "retval_"], liveOut := ["do_return", "retval_"]} ] ]
+
+example : condRet.wf = true ∧ funcHyp ["c"] condRet.prog [] = true := by decide
+/-- c = 1: both return 7. -/
+example : (execB X0 8 (eraseB condRet.prog) (st [("c", .int 1)])).map (·.1) = some (.ret (.int 7)) := by decide
+example : (callConverted X0 9 condRet "f" true (TSt.ofSt (st [("c", .int 1)])) [.disabled]).map (fun r => (r.1, r.2.2)) =
+    some (.ret (.int 7), [.disabled]) := by decide
+/-- c = 0: the source falls through to `return retval_` with `None`; the converted code passes the
+`UndefinedReturnValue` placeholder to `fscope.ret`, which gives `None`. -/
+example : (execB X0 8 (eraseB condRet.prog) (st [("c", .int 0)])).map (·.1) = some (.ret .none) := by decide
+example : (callConverted X0 9 condRet "f" true (TSt.ofSt (st [("c", .int 0)])) []).map (fun r => (r.1, r.2.1.env "retval_")) =
+    some (.ret .none, .undef) := by decide
+
+/-- An exception through the `with`: `def f(c): with cm(7): (if c: raise E3); return 1` — the `with cm` exit is logged,
+the exception leaves the function, the status stack is restored. -/
+def excThrough : Lowered :=
+  .rets "do_return" "retval_"
+    {liveIn := ["c"], liveOut := ["c", "do_return"]}
+    {liveIn := ["c", "do_return"], liveOut := ["c", "do_return", "retval_"]}
+    {liveIn := ["do_return", "retval_"], liveOut := []}
+    [ .withS {liveIn := ["c"], liveOut := []} 7
+        [ .ifS {liveIn := ["c"], liveOut := [], definedIn := ["c", "do_return", "retval_"], declared := [], undefined := [], nouts := 0}
+            (.var "c")
+            [ .raise {liveIn := [], liveOut := []} 3 ]
+            [ .pass {liveIn := [], liveOut := []} ] ],
+      .assign {liveIn := [], liveOut := ["do_return"]} "do_return" (.const (.int 1)),
+      .assign {liveIn := ["do_return"], liveOut := ["do_return", "retval_"]} "retval_" (.const (.int 1)) ]
+
+example : excThrough.wf = true ∧ funcHyp ["c"] excThrough.prog [] = true := by decide
+example : (execB X0 9 (eraseB excThrough.prog) (st [("c", .int 1)])).map (fun r => (r.1, r.2.log)) =
+    some (.exc (.user 3), [.enter 7, .exit 7]) := by decide
+example : (callConverted X0 10 excThrough "f" true (TSt.ofSt (st [("c", .int 1)])) [.unspecified]).map
+      (fun r => (r.1, r.2.1.log, r.2.2)) = some (.exc (.user 3), [.enter 7, .exit 7], [.unspecified]) := by decide
+example : (callConverted X0 10 excThrough "f" true (TSt.ofSt (st [("c", .int 0)])) []).map (·.1) = some (.ret (.int 1)) := by decide
+
+/-- The theorem instantiated: every call of the converted `condRet` is matched, for every argument and stack. -/
+example (c : Int) (stk : CtxStack) (k : Nat) (o : Out) (σ₁ : St)
+    (h : execB X0 k (eraseB condRet.prog) (st [("c", .int c)]) = some (o, σ₁)) :
+    ∃ m τ, callConverted X0 m condRet "f" true (TSt.ofSt (st [("c", .int c)])) stk = some (fnOutcome o, τ, stk) ∧
+      τ.log = σ₁.log :=
+  function_wrapper_correct X0 condRet (by decide) "f" true ["c"] (funcHyp_sound _ _ _ (by decide)) _ _
+    (agree_ofSt _ _)
+    (fun y hy => by
+      simp only [st, List.find?] at hy
+      by_cases hyn : ("c" == y) = true
+      · have : y = "c" := by simpa using (beq_iff_eq.mp hyn).symm
+        simp [this]
+      · simp [hyn] at hy) stk k o σ₁ h
+
+/-- The same body from its plain `Malt.Sem` form through `annotL` (the whole-function statement). -/
+example : ∃ ann, annotL ann (.rets "do_return" "retval_" (eraseB condRet.inner)) = some condRet :=
+  ⟨fun p => match p with
+    | [0] => {liveIn := ["c"], liveOut := ["c", "do_return"]}
+    | [1] => {liveIn := ["c", "do_return"], liveOut := ["c", "do_return", "retval_"]}
+    | [3] => {liveIn := ["do_return", "retval_"], liveOut := []}
+    | [2] => {liveIn := ["c", "do_return", "retval_"], liveOut := ["do_return", "retval_"],
+              definedIn := ["c", "do_return", "retval_"], declared := ["do_return", "retval_"], undefined := [], nouts := 2}
+    | [2, 0, 0] => {liveIn := [], liveOut := ["do_return"]}
+    | [2, 0, 1] => {liveIn := ["do_return"], liveOut := ["do_return", "retval_"]}
+    | [2, 1, 0] => {liveIn := ["do_return", "retval_"], liveOut := ["do_return", "retval_"]}
+    | _ => {}, rfl⟩
 
 end Examples
 
